@@ -489,7 +489,10 @@ def _bn_offset(args, x_shape, dtype):
     """per-channel offset (exactly representable together with the k/8 grid): data whose mean is far from its spread"""
     if not any(args.get("offset", [])):
         return None
-    big = 1.0e4 if np.dtype(dtype) == np.float64 else 64.0
+    # only float64 can separate a sound two-pass variance from a cancelling one at the comparison tolerance
+    if np.dtype(dtype) != np.float64:
+        return None
+    big = 1.0e3
     off = np.array(args["offset"], dtype=np.float64) * big
     return off.reshape([1, len(off)] + [1] * (len(x_shape) - 2))
 
@@ -667,7 +670,7 @@ DROPOUT = TOp("dropout", gen_dropout, apply_dropout, None,
 
 BY_NAME = {o.name: o for o in OPS + [DROPOUT]}
 # finite differences through data that sits 1e4 away from its spread need a larger step (noise ~ ulp(1e4)/h)
-BY_NAME["batch_norm"].fd_hscale = lambda a: 100.0 if any(a.get("offset", [])) and a.get("_dtype") == "float64" else 1.0
+BY_NAME["batch_norm"].fd_hscale = lambda a: 10.0 if any(a.get("offset", [])) and a.get("_dtype") == "float64" else 1.0
 for _n in ("relu", "leaky_relu", "linear", "conv1d", "conv2d", "max_pool1d", "max_pool2d", "avg_pool1d", "avg_pool2d", "unfold",
            "fold", "loss_mse", "flatten_layer", "dropout", "batch_norm"):
     BY_NAME[_n].scales = (1.0, 1.0, 1.0, 128.0, 1.0 / 64)
